@@ -7,10 +7,10 @@ func init() {
 		ID: "C15",
 		Explanation: "Reward accumulator (osmoutils/accum): decides the formula total = unclaimed + (accum value − position snapshot)·shares; that every share mutation first folds the accrued rewards into the position (GetTotalRewards → unclaimed), " +
 			"writes old±Δ shares for the same position name, and updates the re-read accumulator total by the same Δ with the same sign before persisting; the failure guards (non-positive Δ, remove > held, zero update, unknown position, negative rewards) precede all writes; " +
-			"claim resets exactly the claimed position (or deletes it when it holds no shares) and truncates only via TruncateDecimal; the set of functions writing position and accumulator records.",
+			"claim resets exactly the claimed position (or deletes it when it holds no shares) and truncates only via TruncateDecimal; the set of functions writing position and accumulator records. Round 8: after a claim the surviving position is always re-based to global − growth outside, whatever was paid.",
 		NotCovered:  []string{"claim = Σ growth × shares over a history as a number", "total shares = Σ position shares as an invariant over histories"},
 		Assumptions: []string{"osmoutils.MustSet/Get and the KV store are the effect primitives"},
-		MinObl:      65,
+		MinObl:      66,
 		Run:         runC15,
 	})
 }
